@@ -76,6 +76,7 @@ def run(ck, fb):
     r07k(ck, fb)
     r07m(ck, fb)
     r07n(ck, fb)
+    ck.borrow('rules.c16', {'R16h': 'R07o'}, 'the deadline of a cache entry is a function of the committed entry (ttl + the time stamp it carries), not of the moment a node applies it: a replay or a late follower would otherwise keep the entry after the leader dropped it')
     ck.borrow('rules.c09', {'R09c': 'R07i', 'R09p': 'R07l'}, 'the replicated publish is a no-op only when the node already holds that content as APPLIED content: a follower that holds it as temporary value must record it like the leader does')
     ck.borrow('rules.c01', {'R01n': 'R07h'}, 'the start-up replay path must decide a request as the live apply path did: an index that only load_completed builds is empty during the replay')
 
